@@ -245,6 +245,14 @@ func c20Singles() []c20Spec {
 			add(fmt.Sprintf(`BEGIN { print "before"; a = []; a[%d] = 1; print "after" }`, n), "REFUSED")
 		}
 	}
+	// a huge index on an array that does not exist yet and is itself a member / element of something else
+	for _, idx := range []string{"1048577", "4000000000", "35184372088832", "9007199254740993", "9223372036854775807"} {
+		add(fmt.Sprintf(`BEGIN { print "before"; o.items[%s] = 1; print "after" }`, idx), "REFUSED")
+		add(fmt.Sprintf(`BEGIN { print "before"; a[0][%s] = 1; print "after" }`, idx), "REFUSED")
+		add(fmt.Sprintf(`BEGIN { print "before"; o.p.q[%s].z = 1; print "after" }`, idx), "REFUSED")
+		add(fmt.Sprintf(`{ print "before"; $.seen[%s] = true; print "after" }`, idx), "REFUSED:input2")
+		add(fmt.Sprintf(`BEGIN { print "before"; o.items[%s]++; print "after" }`, idx), "REFUSED")
+	}
 	// the limit bounds the index reached, not the size of one step
 	add(`BEGIN { print "before"; a = []; a[1000000] = "x"; a[1500000] = "y"; print "after" }`, "REFUSED")
 	add(`BEGIN { print "before"; a = []; for (i = 1; i <= 4; i++) { a[i * 400000] = i } print "after" }`, "REFUSED")
